@@ -175,6 +175,11 @@ func (c *ControllerSeller) handleCipherTextUpdated(ctx context.Context, event *i
 	currentDest := c.Dest()
 
 	terms, err := c.GetTermsFromBlockchain(ctx)
+	if err != nil && terms == nil {
+		// the contract could not be read at all (node error): nothing is known about the new
+		// destination, the fulfilment is left as it is
+		return err
+	}
 	if err != nil {
 		// if we cannot decrypt dest, we still update terms with nil dest
 		// and stop fulfilling
